@@ -1,0 +1,20 @@
+//go:build verif
+
+package agent
+
+// Contracts for the agent listener, checked by /verif/govc.
+// Comment-only file: it adds nothing to any build.
+//
+// ---- agent server key pair (property C18): load, or generate and store; what is used is what is stored ----
+// The key-value store is seen through the ghost maps (ghaskv, gkv) of storage.Storage. The stored
+// value is 128 hex digits: private key then public key. That shape is an invariant of the store that
+// KeyPair both relies on (it slices at 64 without looking at the length) and establishes.
+//@ func (*agentListenerStorage).KeyPair
+//@   check safety, frame
+//@   requires [key-shape] s.Storage.ghaskv["key"] ==> len(s.Storage.gkv["key"]) == 128
+//@   ensures [key-shape] s.Storage.ghaskv["key"] ==> len(s.Storage.gkv["key"]) == 128
+//@   ensures [stored] old(s.Storage.ghaskv["key"]) && result1 == nil ==> str(addr(result0.PublicKey)[:]) == hexdec(old(s.Storage.gkv["key"])[64:128]) && str(addr(result0.PrivateKey)[:]) == hexdec(old(s.Storage.gkv["key"])[0:64])
+//@   ensures [kept] old(s.Storage.ghaskv["key"]) ==> s.Storage.ghaskv["key"] && s.Storage.gkv["key"] == old(s.Storage.gkv["key"])
+//@   ensures [generated] !old(s.Storage.ghaskv["key"]) && result1 == nil ==> s.Storage.ghaskv["key"] && s.Storage.gkv["key"][0:64] == hexenc(str(addr(result0.PrivateKey)[:])) && s.Storage.gkv["key"][64:128] == hexenc(str(addr(result0.PublicKey)[:]))
+//@   ensures [others] forall k string :: k != "key" ==> s.Storage.ghaskv[k] == old(s.Storage.ghaskv[k]) && s.Storage.gkv[k] == old(s.Storage.gkv[k])
+//@   modifies ghost(ghaskv), ghost(gkv), ghost(gsetfail)
